@@ -223,7 +223,7 @@ REG_TEMPLATES = [     # {} = a register operand
     'jr {}', 'jalr {}',
 ]
 REG_DEFS = [('R', 'x8', 'x8'), ('R', '8', 'x8'), ('R', 's0', 'x8'), ('R', 'fp', 'x8'), ('R', 'x9', 'x9'), ('R', 'a5', 'x15'), ('R', '0x0f', 'x15'), ('R', 'x5', 'x5'),
-            ('R', 'ra', 'x1'), ('R', 'sp', 'x2')]
+            ('R', 'ra', 'x1'), ('R', 'sp', 'x2'), ('R', 'zero', 'x0'), ('R', '0', 'x0'), ('R', 'x0', 'x0'), ('R', 'x31', 'x31'), ('R', '16', 'x16')]
 
 
 def transparency_case(ctx, case):
